@@ -187,10 +187,12 @@ class System(SharedRegistryObject):
 
                 # Here we invert the equation, in other words
                 # we write old units in terms new unit and expansion
+                # new = old**a * prod(other_i**b_i)
+                #   =>  old = new**(1/a) * prod(other_i**(-b_i/a))
                 new_unit_dict = {
-                    new_unit: -1 / value
-                    for new_unit, value in new_unit_expanded.items()
-                    if new_unit != old_unit
+                    other_unit: -value / new_unit_expanded[old_unit]
+                    for other_unit, value in new_unit_expanded.items()
+                    if other_unit != old_unit
                 }
                 new_unit_dict[new_unit] = 1 / new_unit_expanded[old_unit]
 
